@@ -234,7 +234,9 @@ def explore(rng, transport, profile, flavor, runner_cls, max_cmds=70):
                 info['trap'] = True
                 do(['trap'])
             elif rng.random() < 0.2:
-                do(['sreq'])          # synchronous caller that times out; its reply may still arrive later
+                # synchronous caller that times out; its reply may still arrive later.  Half of them go through Manager.execute,
+                # after which NOTHING references the request any more (as in user code): the late reply must still be harmless
+                do(['sreq', 'unref'] if rng.random() < 0.5 else ['sreq'])
             else:
                 do(['req'])
             continue
